@@ -78,10 +78,15 @@ def multipath(edges, n):
     return False
 
 
-def graph_env(edges, order_rng=None):
+def graph_env(edges, order_rng=None, anti=()):
     dep = {}
     for a, b in edges:
+        if (a, b) in anti:
+            continue
         dep.setdefault(a, []).append(b)
+    for a, b in anti:
+        # a depends on b, declared from b's side: b is a back end of a
+        dep.setdefault(b, []).append("!" + NAMES[a])
     parts = []
     for a in sorted(dep):
         ds = list(dep[a])
@@ -97,6 +102,34 @@ def judge(case, rc, stdout, log):
     out = []
     valid_line = "appears valid" in stdout
     events = [tuple(l.split(" ", 1)) for l in log.splitlines() if " " in l]
+    if kind == "anti":
+        # some dependencies are declared from the provider's side (module_antidepends): the documented promise is the unload order
+        if rc != 0 or not valid_line:
+            out.append(("anti-rejected", "acyclic graph %s listing %s: exit %s, valid-line %s; stdout: %s" % (genv, listing, rc, valid_line, stdout.strip()[-300:])))
+            return out
+        anti = [tuple(e) for e in case["anti"]]
+        load = [(b, a) if (a, b) in anti else (a, b) for a, b in [tuple(e) for e in edges]]
+        need = reach(load, listing)
+        pos = {}
+        for idx, (what, name) in enumerate(events):
+            pos.setdefault((what, name), []).append(idx)
+        for u in range(n):
+            nm = NAMES[u]
+            for what in ("ctor-begin", "ctor-end", "post-init", "dtor"):
+                c = len(pos.get((what, nm), []))
+                want = 1 if u in need else 0
+                if c != want:
+                    out.append(("count-" + what, "graph %s listing %s: module %s has %d %s events, want %d" % (genv, listing, nm, c, what, want)))
+        if out:
+            return out
+        for a, b in [tuple(e) for e in edges]:
+            if a not in need or b not in need:
+                continue
+            A, B = NAMES[a], NAMES[b]
+            if not pos[("dtor", A)][0] < pos[("dtor", B)][0]:
+                out.append(("order-dtor" + (":antidepends" if (a, b) in anti else ""), "graph %s listing %s: destructor of %s ran before that of %s, which depends on it%s" % (
+                    genv, listing, B, A, " (declared by module_antidepends)" if (a, b) in anti else "")))
+        return out
     if kind == "dag":
         if rc != 0 or not valid_line:
             out.append(("dag-rejected", "acyclic graph %s listing %s: exit %s, valid-line %s; stdout: %s" % (
@@ -211,6 +244,20 @@ def gen_cases(tier, seed, scale):
             edges = [(perm[i], perm[j]) for i in range(n) for j in range(i + 1, n) if rng.random() < dens]
             lst = rng.choice(listings_for(edges, n, rng, 6))
             cases.append({"kind": "dag", "n": n, "edges": edges, "listing": list(lst), "genv": graph_env(edges, rng)})
+    # dependencies declared from the provider's side (module_antidepends, README): DAGs in which a random non-empty subset of the
+    # edges is declared that way; every module is listed so that what gets loaded does not depend on who pulls in whom
+    for _ in range(int((400 if tier == "quick" else 6000) * scale)):
+        n = rng.randint(2, 5)
+        perm = list(range(n))
+        rng.shuffle(perm)
+        dens = rng.choice([0.3, 0.5, 0.8])
+        edges = [(perm[i], perm[j]) for i in range(n) for j in range(i + 1, n) if rng.random() < dens]
+        if not edges:
+            continue
+        anti = [e for e in edges if rng.random() < 0.5] or [rng.choice(edges)]
+        lst = list(range(n))
+        rng.shuffle(lst)
+        cases.append({"kind": "anti", "n": n, "edges": edges, "anti": anti, "listing": lst, "genv": graph_env(edges, rng, anti=anti)})
     # cyclic graphs: all on <=3 nodes (with and without self loops), sampled on 4..6; all nodes listed
     for n in range(1, 4):
         for edges in all_digraphs(n, selfloops=True):
@@ -272,7 +319,7 @@ def run(chk, tier, scale=1.0):
         for case, rc, viols, san, lg, nev in res:
             key = (case["kind"], case["n"], tuple(sorted(map(tuple, case["edges"]))), tuple(case["listing"]))
             mp = case["kind"] == "dag" and multipath(case["edges"], case["n"])
-            chk.add_case(vcommon.h(key), nev > 0 or case["kind"] != "dag")
+            chk.add_case(vcommon.h(key + (tuple(map(tuple, case.get("anti", ()))),)), nev > 0 or case["kind"] not in ("dag", "anti"))
             chk.count("runs_" + case["kind"])
             chk.count("stub_events_judged", nev)
             if mp:
